@@ -171,10 +171,13 @@ def planted_case(ctx, rng, estimator, noise, multi=False):
         warnings.simplefilter("ignore")
         try:
             est, _ = fn(mk(data), sec, np.ones(nt), reshape_residuals=False, **kw)
+            est = float(np.asarray(est))     # the exponential estimator hands back a 0-d (dask) array
             n = sum(i1 - i0 + 1 for i0, i1 in blocks) * nt
             p = sum((i1 - i0 + 1) + nt for i0, i1 in blocks) if estimator == "constant" else len(blocks) * (1 + nt)
             if noise == 0:
-                if est > 1e-10 * 1000.0**2:
+                # "~0": LSQR stops at a relative tolerance of 1e-6, so the residuals of an exact fit are of the order 1e-5 of the
+                # signal (several stretches: larger system, a few times more); a defect of the estimator gives 1e-4 .. 1 of signal^2
+                if est > 1e-8 * float(np.mean(clean[clean > 0] ** 2)):
                     ctx.fail(f"{estimator}: estimate {est:.3g} for noise-free data that follow the estimator's model", case)
             else:
                 want = sd**2 * (1 - p / n)
@@ -183,10 +186,12 @@ def planted_case(ctx, rng, estimator, noise, multi=False):
                     ctx.fail(f"{estimator}: estimate {est:.5g} vs planted s2*(1-p/n) = {want:.5g} (relative band {band:.3f})", case)
                 k = 10.0 ** rng.uniform(-2, 2)
                 est_k, _ = fn(mk(data * k), sec, np.ones(nt), reshape_residuals=False, **kw)
+                est_k = float(np.asarray(est_k))
                 if abs(est_k / (k * k * est) - 1) > 1e-3:
                     ctx.fail(f"{estimator}: scaling the intensities by {k:.4g} scales the estimate by {est_k / est:.6g}, not k^2 = {k * k:.6g}", case)
                 d2 = list(reversed([(kk, list(reversed(v))) for kk, v in d]))
                 est_p, _ = fn(mk(data), secgen.to_sections(d2), np.ones(nt), reshape_residuals=False, **kw)
+                est_p = float(np.asarray(est_p))
                 if abs(est_p / est - 1) > 1e-6:
                     ctx.fail(f"{estimator}: estimate changes from {est!r} to {est_p!r} when the sections are listed in another order", case)
         except Exception as e:  # noqa: BLE001
